@@ -33,6 +33,47 @@ func ProfileFor(prop string) Profile {
 	case "limit":
 		p.MaxHeight = 6
 		p.WBind = 25
+	case "raise":
+		// a reconvergent shape whose arms are raised unequally when a bind's right-hand side gets
+		// taller in the middle of a pass: a -> b -> x and a -> x, all downstream of a bind main
+		deep := &Texp{K: "TMap", F1: Fn1{1, 1}, E1: &Texp{K: "TMap", F1: Fn1{2, 0}, E1: &Texp{K: "TMap", F1: Fn1{1, 2},
+			E1: &Texp{K: "TMap", F1: Fn1{3, 1}, E1: &Texp{K: "TX"}}}}}
+		p.Prefix = []Op{
+			{K: "NewVar", V: 0},
+			{K: "NewBind", A: 0, Cases: []*Texp{{K: "TRet", Z: 1}, deep, {K: "TMap", F1: Fn1{1, 3}, E1: &Texp{K: "TX"}}}},
+			{K: "NewMap", F1: Fn1{1, 1}, A: 2},          // n3 = a
+			{K: "NewMap", F1: Fn1{2, 1}, A: 3},          // n4 = b
+			{K: "NewMap2", F2: Fn2{1, 2, 0}, A: 4, B: 3}, // n5 = x = f(b, a)
+			{K: "NewMap", F1: Fn1{1, 0}, A: 5},          // n6
+			{K: "Observe", A: 6}, {K: "Stabilize"},
+		}
+		p.Ops = 30
+		p.WNew = 8
+		p.WBind = 30
+		p.WObserve = 6
+		p.WUnobserve = 3
+		p.WSet = 38
+		p.WStabilize = 36
+	case "relink":
+		// two binds over one selector, the lower one reading var n0 in case 0, the higher one in
+		// case 1: flipping the selector makes n0 leave the graph and re-enter it within one pass;
+		// writes to n0 from inside that pass must survive the round trip
+		v := &Texp{K: "TMap", F1: Fn1{1, 2}, E1: &Texp{K: "TOuter", N: 0}}
+		p.Prefix = []Op{
+			{K: "NewVar", V: 1}, {K: "NewVar", V: 0}, {K: "NewMap", F1: Fn1{1, 0}, A: 1},
+			{K: "NewBind", A: 1, Cases: []*Texp{v, {K: "TRet", Z: 5}}},
+			{K: "NewBind", A: 2, Cases: []*Texp{{K: "TRet", Z: 6}, v}},
+			{K: "Observe", A: 4}, {K: "Observe", A: 6}, {K: "Stabilize"},
+		}
+		p.Ops = 34
+		p.WNew = 4
+		p.WObserve = 4
+		p.WUnobserve = 2
+		p.WSet = 40
+		p.WStabilize = 40
+		p.WAddRemove = 0
+		p.WMidSet = 85
+		p.PairWrites = 10
 	case "alwaysfaults":
 		// every history starts with an always node feeding a function node that is observed and
 		// has been computed once (so that later passes recompute it directly after the always node)
